@@ -381,6 +381,91 @@ def gate_quantities(ctx, rng, base, n):
     return cases, keep
 
 
+def transport_gate(ctx, rng, base, n):
+    """the same sentence for a Transport group: the real TransportGroupIO.pull_force over one to three real transport nodes (real
+    fits, real DefaultNodeIO.pull), each with its own scripted free space, reservation, minimum and size limit on the boundaries"""
+    from vf.harness import world as w
+    from alpenhorn.daemon import update as U
+    from alpenhorn.io import default as D
+    from alpenhorn.io import transport as TR
+
+    G = float(2 ** 30)
+    for k in range(n):
+        w.fresh_db(host="h1")
+        b = base / f"tg{k % 4}"
+        b.mkdir(parents=True, exist_ok=True)
+        gs, gt = w.mkgroup("gs"), w.mkgroup("gt", io_class="Transport")
+        src = w.mknode(b, "src", gs, stype="F")
+        acq = w.mkacq("acq")
+        size = rng.choice([1, 100, 1024])
+        f = w.mkfile(acq, "new", b"")
+        w.ArchiveFile.update(size_b=size).where(w.ArchiveFile.id == f.id).execute()
+        f = w.ArchiveFile.get(id=f.id)
+        w.mkcopy(src, f, "Y", "Y", size_b=size)
+        facts, free = {}, {}
+        rows = []
+        for j in range(rng.randint(1, 3)):
+            row = w.mknode(b, f"t{j}", gt, stype="T")
+            mx = rng.choice([None, None, None, 1024, 2048])
+            total = rng.choice([0, 1023, 1024, 2048])
+            mn = rng.choice([0, 0, 1024])
+            av = rng.choice([None, 1023, 1024, 4096, 8192])
+            res = rng.choice([0, 0, 10, 200])
+            bav = rng.choice([res + 2 * size, max(0, res + 2 * size - 1), res + 2 * size + 1, 10 ** 7])
+            if total:
+                o = w.mkfile(acq, f"old{j}", b"")
+                w.ArchiveFile.update(size_b=total).where(w.ArchiveFile.id == o.id).execute()
+                w.mkcopy(row, o, "Y", "Y", size_b=total)
+            node = w.StorageNode.get(id=row.id)
+            node.min_avail_gb, node.avail_gb, node.max_total_gb = mn / G, (None if av is None else av / G), (None if mx is None else mx / G)
+            node.save()
+            rows.append(row)
+            facts[node.name] = {"max_total_bytes": mx, "total_bytes": total, "min_avail_bytes": mn, "avail_bytes": av, "reserved": res, "free_bytes": bav}
+            free[str(pathlib.Path(node.root))] = bav
+        queue = w.StepQueue.make()
+        D._reserved_bytes.clear()
+        unodes = [U.UpdateableNode(queue, w.StorageNode.get(id=r.id)) for r in rows]
+        for un in unodes:
+            D._reserved_bytes[un.name] = facts[un.name]["reserved"]
+        gio = TR.TransportGroupIO(w.StorageGroup.get(id=gt.id), {}, queue)
+        gio.set_nodes(unodes)
+        req = w.mkreq(f, src, gt)
+        orig = os.statvfs
+
+        def statvfs(p, _free=free):
+            for root, bv in _free.items():
+                if str(p) == root or str(p).startswith(root + "/"):
+                    return StatVfs(bv)
+            return orig(p)
+
+        os.statvfs = statvfs
+        try:
+            gio.pull_force(w.ArchiveFileCopyRequest.get(id=req.id))
+        finally:
+            os.statvfs = orig
+        after = dict(D._reserved_bytes)
+        D._reserved_bytes.clear()
+        started = [nm for nm, fa in facts.items() if after.get(nm, 0) != fa["reserved"]]
+        ctx.count("transport-gate")
+        ctx.distinct_add(("tg", size, repr(sorted(facts.items()))))
+        rp = {"family": "transport-gate", "size": size, "nodes": facts, "reserved_after": after, "queued": queue.qsize}
+        if queue.qsize != len(started) or len(started) > 1:
+            ctx.fail("C14:transport-reservation", f"{queue.qsize} pull task(s) queued, reservations changed on {started}", rp)
+        for nm in started:
+            ctx.count("transport-gate-started")
+            fa = facts[nm]
+            if after[nm] != fa["reserved"] + 2 * size:
+                ctx.fail("C14:transport-reservation", f"node {nm}: reserved went {fa['reserved']} -> {after[nm]} for a transfer of {size} bytes", rp)
+            if fa["avail_bytes"] is not None and fa["avail_bytes"] < fa["min_avail_bytes"]:
+                ctx.fail("C14:gate-under-min", f"a transfer was started on transport node {nm} with {fa['avail_bytes']} bytes free, below its minimum of {fa['min_avail_bytes']}", rp)
+            if fa["max_total_bytes"] is not None and fa["total_bytes"] >= fa["max_total_bytes"]:
+                ctx.fail("C14:gate-at-limit", f"a transfer was started on transport node {nm} holding {fa['total_bytes']} bytes with a size limit of {fa['max_total_bytes']} bytes", rp)
+            if 2 * size > fa["free_bytes"] - fa["reserved"]:
+                ctx.fail("C14:gate-no-room", f"a transfer of {size} bytes was started on transport node {nm} with {fa['free_bytes']} bytes free and {fa['reserved']} reserved", rp)
+        if k == 0:
+            ctx.sample(rp)
+
+
 def explore(ctx):
     base = ctx.tmp()
     nh = 40 if ctx.quick() else 800
@@ -402,6 +487,7 @@ def explore(ctx):
     bad = core.run_cases(ctx, "gateq", "Corr.C14", "gcase", "gcheck", gq, shard=1000, extra_imports=("Model.Reserve",))
     for i in bad[:3]:
         ctx.broke("correspondence", f"pull gate on quantities: model and implementation differ: {gkeep[i]}")
+    transport_gate(ctx, ctx.rng, base, 150 if ctx.quick() else 3000)
     rc = direct_calls(ctx, ctx.rng, base, 300 if ctx.quick() else 5000)
     bad = core.run_cases(ctx, "reserve", "Corr.C14", "rcase", "rcheck", rc, shard=1000, extra_imports=("Model.Reserve",))
     for i in bad[:3]:
